@@ -274,20 +274,18 @@ Definition g_accessor (v : val) : option (op -> prog blob (outcome (resval blob)
 Definition g_bytes_list (v : val) : option (list (list N)) :=
   match v with VL l => all_some (map getS l) | _ => None end.
 
-Definition g_shard (v : val) : option (shard_desc * shst) :=
+Definition g_shard (v : val) : option (shard_desc * bool) :=
   match v with
-  | VL [VS dir; VS file; VS zero; data; idx; VS hdr; dirty; VZ dead] =>
+  | VL (VS dir :: VS file :: VS zero :: data :: idx :: VS hdr :: dirty :: _) =>
       data <- g_bytes_list data ;; idx <- g_bytes_list idx ;; dirty <- getB dirty ;;
       Some ({| sd_dir := parse_parts dir; sd_file := parse_parts file; sd_zero := zero;
-               sd_data := data; sd_idx := idx; sd_hdr := hdr |},
-            {| sh_dirty := dirty; sh_dead := Z.to_nat dead |})
+               sd_data := data; sd_idx := idx; sd_hdr := hdr |}, dirty)
   | _ => None end.
-Definition g_shards (v : val) : option (list (shard_desc * shst)) :=
+Definition g_shards (v : val) : option (list (shard_desc * bool)) :=
   match v with VL l => all_some (map g_shard l) | _ => None end.
 
 Definition v_cres (r : cres) : val :=
-  match r with COk => VT "ok" | CIOErr => VT "IOErr" | CAttrErr => VT "AttrErr" end.
-Definition v_shst (s : shst) : val := VL [vbool (sh_dirty s); vnat (sh_dead s)].
+  match r with COk => VT "ok" | CIOErr => VT "IOErr" end.
 
 (* what a failing write leaves: the content before it (table of the shards) *)
 Fixpoint prev_lookup (tb : list (list N * list N)) (b : list N) : list N :=
@@ -295,7 +293,7 @@ Fixpoint prev_lookup (tb : list (list N * list N)) (b : list N) : list N :=
   | [] => []
   | (k, v) :: r => if bytes_eqb k b then v else prev_lookup r b
   end.
-Definition close_trunc (l : list (shard_desc * shst)) (d : blob) : blob :=
+Definition close_trunc (l : list (shard_desc * bool)) (d : blob) : blob :=
   match d with
   | BPlain b => BPlain (prev_lookup (List.concat (map (fun x => prev_table (fst x)) l)) b)
   | x => x
@@ -435,8 +433,9 @@ Definition d_c12 (opn : string) (a : val) : option val :=
             | _, _, _ => bad end)
   (* ShardedFileAccessor.close() with the primitive call k failing (k < 0: no fault), then a
      second close() without fault on the state and tree the first one left.  Reply: calls of
-     the fault-free first close, outcome / shard states / tree after the first close, calls,
-     outcome / shard states / tree of the second *)
+     the fault-free first close, outcome / dirty flags / tree after the first close, calls,
+     outcome / dirty flags / tree of the second, and whether the hypotheses of the
+     tree theorems (StFaultsProofs.close_retry_checked) hold for this case *)
   | "sh_close", VL [t; sh; VZ k; e] =>
       Some (match g_fs t, g_shards sh, g_errno e with
             | Some t, Some l, Some e =>
@@ -448,9 +447,10 @@ Definition d_c12 (opn : string) (a : val) : option val :=
                 let p2 := close_prog blob BPlain l2 in
                 let '((r2, s2), t2) := run blob (BPlain []) t1 p2 in
                 VL [VL (map v_call (trace blob (BPlain []) t p));
-                    v_cres r1; VL (map v_shst s1); v_fs t1;
+                    v_cres r1; VL (map vbool s1); v_fs t1;
                     VL (map v_call (trace blob (BPlain []) t1 p2));
-                    v_cres r2; VL (map v_shst s2); v_fs t2]
+                    v_cres r2; VL (map vbool s2); v_fs t2;
+                    vbool (close_hyps blob l t)]
             | _, _, _ => bad end)
   | _, _ => None
   end.
